@@ -19,6 +19,8 @@ mod c12;
 mod c03;
 mod alloc;
 mod c14;
+mod c05;
+mod c16;
 mod util;
 
 use std::path::PathBuf;
@@ -77,6 +79,8 @@ fn main() {
         "C12" => c12::run(&cfg, &mut out),
         "C03" => c03::run(&cfg, &mut out),
         "C14" => c14::run(&cfg, &mut out),
+        "C05" => c05::run(&cfg, &mut out),
+        "C16" => c16::run(&cfg, &mut out),
         other => {
             eprintln!("unknown property {}", other);
             std::process::exit(2);
